@@ -56,7 +56,7 @@ class ClientAuthenticator:
             args = b''
         else:
             cmd, args = line.split(b' ', 1)
-        m = getattr(self, '_auth_' + cmd.decode(), None)
+        m = getattr(self, '_auth_' + cmd.decode('ascii', 'replace'), None)
         if m:
             m(args)
         else:
@@ -578,7 +578,7 @@ class BusAuthenticator :
             args = b''
         else:
             cmd, args = line.split(b' ', 1)
-        m = getattr(self, '_auth_' + cmd.decode(), None)
+        m = getattr(self, '_auth_' + cmd.decode('ascii', 'replace'), None)
         if m:
             m(args)
         else:
@@ -621,7 +621,11 @@ class BusAuthenticator :
             return
 
         if response:
-            response = binascii.unhexlify(response.strip()).decode('ascii')
+            try:
+                response = binascii.unhexlify(response.strip()).decode('ascii')
+            except (binascii.Error, ValueError):
+                self.sendError(b'"Invalid hex encoding"')
+                return
 
         status, challenge = self.current_mech.step(response)
 
